@@ -293,14 +293,17 @@ def pstrC (w : Nat) (trail : Bool) : ICodec where
 
 /-! ### fixed-width strings `cN` -/
 
-/-- `fixed_chars_to_bytes` behind the guard of `parse_val_to_bytes`: the guard counts CHARACTERS (`len(val)`), the
-padding `b"\0" * (n - len(bytes))` is empty when negative – so a multi-byte string can exceed its field -/
-def encChars (n : Nat) (s : Bytes) : Except Err Bytes :=
-  if charCount s > n then .error .value else .ok (s ++ List.replicate (n - s.length) 0)
+/-- `fixed_chars_to_bytes` behind the guard of `parse_val_to_bytes`. `byteGuard = true` is the code after the repair of
+defect F9 (`len(str_to_bytes(val)) > var_len`); `byteGuard = false` is the originally pinned guard, which counted
+CHARACTERS (`len(val)`) – the padding `b"\\0" * (n - len(bytes))` is empty when negative, so multi-byte text could exceed
+its field. -/
+def encChars (byteGuard : Bool) (n : Nat) (s : Bytes) : Except Err Bytes :=
+  if (if byteGuard then s.length else charCount s) > n then .error .value
+  else .ok (s ++ List.replicate (n - s.length) 0)
 
 def charsC (n : Nat) : ICodec where
   enc v := match v with
-    | .str s => encChars n s
+    | .str s => encChars true n s
     | _ => .error .type
   dec _ bs := do
     let (b, rest) ← take n bs
@@ -315,7 +318,7 @@ def charsC (n : Nat) : ICodec where
   dec_enc := by
     intro γ v b rest hok henc
     obtain ⟨s, rfl, hl, hn, hv⟩ := hok
-    simp only [encChars] at henc
+    simp only [encChars, if_true] at henc
     split at henc
     · cases henc
     · simp only [Except.ok.injEq] at henc
